@@ -69,6 +69,7 @@ type Prop struct {
 	Solver     string // primary solver for this property's obligations
 	// Validate runs the native validation test (translator, summaries, oracle
 	// restatements) and returns the number of vectors pushed through.
+	SampleModels   []map[string]string                                     // concrete inputs on which every discharged harness is also run natively (cross-check of the encoding)
 	ValidateRun    string                                                  // go test -run pattern in the overlay test file ("" = none)
 	ObserveBV      bool                                                    // also validate the observations with machine integers as bit-vectors
 	ObserveHarness []string                                                // harness functions run natively AND through the engine on concrete vectors; their observations must agree
@@ -796,6 +797,36 @@ func runCheck(id, tier string) int {
 			inconclusive = append(inconclusive, r.O.Harness+": no assertion reached (vacuous)")
 		}
 	}
+	// cross-check of the encoding on concrete inputs: an obligation set the solver discharged must
+	// also pass natively on the sample inputs; a native failure there means the engine or one of its
+	// models is more permissive than the real build (nothing is decided by these runs)
+	sampleRuns := 0
+	// one native process per sample: the compiled twins keep their package-level state, each must run once
+	for _, m := range p.SampleModels {
+		var scases []replayCase
+		for _, r := range results {
+			if r.E == nil || len(r.E.Violations) > 0 || len(r.E.Inconclusive) > 0 {
+				continue
+			}
+			scases = append(scases, replayCase{Property: id, Obligation: "sample", Harness: r.O.Harness, Globals: r.O.Globals, Model: m})
+		}
+		sres, sout, serr := sc.replay(p, scases)
+		if serr != nil {
+			inconclusive = append(inconclusive, "sample cross-check could not run: "+firstLine(serr.Error())+" "+tail(sout, 3))
+		} else {
+			for i, rr := range sres {
+				sampleRuns++
+				if rr.Assume {
+					continue
+				}
+				if len(rr.Failures) > 0 || rr.Panic != "" {
+					msg := fmt.Sprintf("%s [%s]: discharged by the solver but fails natively for %s (failures=%v panic=%q): the encoding or a model is more permissive than the real build", scases[i].Harness, boundsStr(Oblig{Globals: scases[i].Globals}), modelStr(scases[i].Model), rr.Failures, rr.Panic)
+					fmt.Println("ENCODING-MISMATCH " + msg)
+					inconclusive = append(inconclusive, msg)
+				}
+			}
+		}
+	}
 	vr := <-valCh
 	if p.ValidateRun != "" {
 		if vr.err != nil {
@@ -823,7 +854,7 @@ func runCheck(id, tier string) int {
 	cov := map[string]interface{}{
 		"states":                        maxInt(states, 1),
 		"transitions":                   maxInt(transitions, 1),
-		"traces_validated_against_impl": vr.n,
+		"traces_validated_against_impl": vr.n + sampleRuns,
 		"samples":                       samplesOrPlaceholder(samples),
 		"obligations":                   nObl,
 		"discharged":                    nDis,
